@@ -20,7 +20,6 @@ from concurrent.futures import ThreadPoolExecutor
 import common
 import impl
 
-F_DIRLIKE = "C15-dir-named-like-source"
 F_DOT = "C15-dot-names-skipped"
 
 CONTENT = {
@@ -221,9 +220,9 @@ def wanted(tree, cwd_rel, items):
 
 
 def explained_by_findings(tree, cwd_rel, items, w):
-    """The two known findings as matchers: what the selection is if (1) names starting with '.' below a named directory
-    are not found (and a file named exactly .c/.h is rejected), (2) every directory named *.c/*.h between the named
-    directory and a file doubles the file.  -> (Counter of rel paths, set of finding ids used)"""
+    """The known finding as a matcher: what the selection is if names starting with '.' below a named directory are not
+    found (and a file named exactly .c/.h is rejected).  -> (Counter of rel paths, set of finding ids used).
+    (C15-dir-named-like-source is repaired: a file listed twice below a directory named *.c/*.h is a plain violation.)"""
     its = items if items else [{"rel": list(cwd_rel)}]
     exp, used = Counter(), set()
     for p, i in w["files"]:
@@ -238,10 +237,7 @@ def explained_by_findings(tree, cwd_rel, items, w):
         if any(x.startswith(".") for x in below):
             used.add(F_DOT)
             continue
-        k = sum(1 for x in below[:-1] if ends_src(x))
-        if k:
-            used.add(F_DIRLIKE)
-        exp[p] += 2 ** k
+        exp[p] += 1
     return exp, used
 
 
